@@ -307,7 +307,7 @@ class World:
         ex = self.executor
         pre = [(p.avail_cpu_pool, p.avail_ram_pool, [c.container_id for c in p.active_containers],
                 [c.container_id for c in p.suspending_containers]) for p in ex.pools]
-        pre_ids = {c.container_id for p in ex.pools for c in p.active_containers + p.suspending_containers}
+        pre_ids = {c.container_id for p in ex.pools for c in list(p.active_containers) + list(p.suspending_containers)}
         results, exc = None, None
         # a reason that can be read off the decision alone (needs no timing model, so it is available even when the
         # reference executor has stopped following the run because a tick count became float-ambiguous)
@@ -325,7 +325,7 @@ class World:
             opkey = lambda ops: tuple(id(o) for o in ops)
             by_ops = {opkey(a.ops): a for a in asg}
             for p in ex.pools:
-                for c in p.active_containers + p.suspending_containers:
+                for c in list(p.active_containers) + list(p.suspending_containers):
                     if c.container_id not in pre_ids and c.container_id not in self.key_of_cid:
                         a = by_ops.get(opkey(c.operators))
                         self._new_container(c.container_id, a, c)
@@ -525,7 +525,7 @@ class World:
                 self.flag(tags, "free-figures-mismatch", f"tick {self.tick} pool {pid}: implementation cpu {p.avail_cpu_pool} ram {p.avail_ram_pool}, "
                           f"model cpu {float(mp.free_cpu)} ram {float(mp.free_ram)}")
                 self.model_dead = True
-            live_impl = sorted((self.key_of_cid.get(c.container_id, c.container_id) for c in p.active_containers + p.suspending_containers), key=str)
+            live_impl = sorted((self.key_of_cid.get(c.container_id, c.container_id) for c in list(p.active_containers) + list(p.suspending_containers)), key=str)
             live_model = sorted((rc.key for rc in mp.live), key=str)
             if live_impl != live_model:
                 tags = {"C03", "C09"}
@@ -594,7 +594,7 @@ class World:
             if not (isinstance(s.pool_id, int) and 0 <= s.pool_id < self.npools):
                 self.flag({"C09"}, "bad-pool-accepted", f"suspension for pool {s.pool_id} of {self.npools} was not rejected")
         # results
-        live_now = {c.container_id for p in ex.pools for c in p.active_containers + p.suspending_containers}
+        live_now = {c.container_id for p in ex.pools for c in list(p.active_containers) + list(p.suspending_containers)}
         for r in results:
             n = self.result_count[r.container_id] = self.result_count.get(r.container_id, 0) + 1
             if n > 1:
@@ -615,13 +615,16 @@ class World:
                     self.flag({"C09", "C05"}, "failure-shape", f"{r.container_id}: {states} is not completed* failed+")
         for p in ex.pools:
             # C03 conservation
-            live = p.active_containers + p.suspending_containers
+            live = list(p.active_containers) + list(p.suspending_containers)
             ccpu = sum(c.assignment.cpu for c in live)
             cram = sum(c.assignment.ram for c in live)
+            # (while a container of this pool is writing out, the same equation is what C10 says about it: it keeps its
+            # whole allocation until the write-out ends)
+            ctags = {"C03", "C10"} if len(p.suspending_containers) else {"C03"}
             if p.avail_cpu_pool + ccpu != p.max_cpu_pool:
-                self.flag({"C03"}, "cpu-not-conserved", f"tick {self.tick} pool {p.pool_id}: free {p.avail_cpu_pool} + allocated {ccpu} != {p.max_cpu_pool}")
+                self.flag(ctags, "cpu-not-conserved", f"tick {self.tick} pool {p.pool_id}: free {p.avail_cpu_pool} + allocated {ccpu} != {p.max_cpu_pool}")
             if abs(p.avail_ram_pool + cram - p.max_ram_pool) > 1e-6:
-                self.flag({"C03"}, "ram-not-conserved", f"tick {self.tick} pool {p.pool_id}: free {p.avail_ram_pool} + allocated {cram} != {p.max_ram_pool}")
+                self.flag(ctags, "ram-not-conserved", f"tick {self.tick} pool {p.pool_id}: free {p.avail_ram_pool} + allocated {cram} != {p.max_ram_pool}")
             if p.avail_cpu_pool < 0:
                 self.flag({"C03"}, "negative-free-cpu", f"tick {self.tick} pool {p.pool_id}: {p.avail_cpu_pool}")
             if p.avail_ram_pool < -1e-9 and not self.overcommit:
@@ -649,7 +652,7 @@ class World:
         # C02: an operator belongs to at most one live container
         seen = {}
         for p in ex.pools:
-            for c in p.active_containers + p.suspending_containers:
+            for c in list(p.active_containers) + list(p.suspending_containers):
                 for op in c.operators:
                     if op in seen and seen[op] != c.container_id:
                         self.flag({"C02"}, "operator-in-two-live-containers", f"{self.name(op)} in {seen[op]} and {c.container_id}")
